@@ -70,10 +70,10 @@ Declared(n) == \E i \in 1..Len(decl) : decl[i].name = n
 \* d: Seq([name, vals])
 RECURSIVE ProductV(_)
 ProductV(d) == IF d = <<>> THEN << <<>> >>
-               ELSE LET rest == ProductV(Tail(d))
+               ELSE LET rest == TLCEval(ProductV(Tail(d)))      \* TLCEval: computed once, not at every application
                         vals == d[1].vals
-                    IN [k \in 1..(Len(vals) * Len(rest)) |->
-                          << <<d[1].name, vals[((k - 1) \div Len(rest)) + 1]>> >> \o rest[((k - 1) % Len(rest)) + 1]]
+                    IN TLCEval([k \in 1..(Len(vals) * Len(rest)) |->
+                          << <<d[1].name, vals[((k - 1) \div Len(rest)) + 1]>> >> \o rest[((k - 1) % Len(rest)) + 1]])
 Product(d) == ProductV([i \in 1..Len(d) |-> [name |-> d[i].name, vals |-> ShapeVals(d[i].shape)]])
 
 \* the code: itertools.product over the per-parameter (name, value) lists = left fold
@@ -143,8 +143,8 @@ C15_NoErrorInvented == error => failedAny
 RunRecords(sig, stop, cstart, cfreq, limit) ==
     LET last == (IF stop < limit THEN stop ELSE limit) - 1
         ts   == {t \in 0..last : t >= cstart /\ (t - cstart) % cfreq = 0}
-    IN [k \in 1..Cardinality(ts) |->
-          <<sig, CHOOSE t \in ts : Cardinality({u \in ts : u < t}) = k - 1>>]
+    IN TLCEval([k \in 1..Cardinality(ts) |->
+          <<sig, CHOOSE t \in ts : Cardinality({u \in ts : u < t}) = k - 1>>])
 
 -----------------------------------------------------------------------------
 (***************************************************************************)
